@@ -298,6 +298,18 @@ int Canon::canon(int t) {
     const Term y = TT.t[x.a[0]]; r = canon(TT.mk(TT.OP_SELECT, {y.a[0], canon(TT.mk(x.op, {y.a[1]}, x.k, x.bytes)), canon(TT.mk(x.op, {y.a[2]}, x.k, x.bytes))}, 0, x.bytes));
   }
   else if ((op == "uitofp" || op == "sitofp") && x.a.size() == 1 && TT.t[x.a[0]].op == TT.OP_C) { int sb = (int)x.k; int64_t v = TT.t[x.a[0]].k; if (sb > 0 && sb < 64) { uint64_t m = ((uint64_t)1 << sb) - 1; uint64_t u = (uint64_t)v & m; v = op == "uitofp" ? (int64_t)u : ((u >> (sb - 1)) & 1 ? (int64_t)(u | ~m) : (int64_t)u); } r = TT.cfp((double)v, x.bytes); }
+  else if ((op == "libm.trunc" || op == "libm.truncf") && x.a.size() == 1 && TT.t[x.a[0]].op == TT.OP_FADD) {
+    // trunc(x + copysign(pred(1/2), x)) == round(x) (half away from zero) for every x: the largest value below one half carries
+    // exactly the halfway cases over the next integer and no others; the sign copy is or(and(x, signbit), bits(pred(1/2)))
+    const Term f = TT.t[x.a[0]]; int by = x.bytes; int64_t predHalf = by == 8 ? 0x3FDFFFFFFFFFFFFFLL : 0x3EFFFFFFLL; int64_t sm = by == 8 ? INT64_MIN : (int64_t)INT32_MIN;
+    auto isCopysignPredHalf = [&](int t, int xx) { const Term o = TT.t[t]; if (o.op != TT.OP_OR || o.a.size() != 2) return false;
+      for (int k = 0; k < 2; k++) { const Term c = TT.t[o.a[k]], an = TT.t[o.a[1 - k]];
+        if (c.op == TT.OP_C && (by == 8 ? c.k == predHalf : (int32_t)c.k == (int32_t)predHalf) && an.op == TT.OP_AND && an.a.size() == 2)
+          for (int j = 0; j < 2; j++) { const Term m = TT.t[an.a[j]]; if (m.op == TT.OP_C && (by == 8 ? m.k == sm : (int32_t)m.k == (int32_t)sm) && an.a[1 - j] == xx) return true; } }
+      return false; };
+    if (isCopysignPredHalf(f.a[1], f.a[0])) r = canon(TT.mk("libm.round", {f.a[0]}, 0, by));
+    else if (isCopysignPredHalf(f.a[0], f.a[1])) r = canon(TT.mk("libm.round", {f.a[1]}, 0, by));
+  }
   else if (x.op == TT.OP_SELECT && x.a[1] == x.a[2]) r = x.a[1];
   else if (x.op == TT.OP_SELECT && TT.t[x.a[0]].op == TT.OP_C) r = x.a[(TT.t[x.a[0]].k & 1) ? 1 : 2];
   else if (x.op == TT.OP_SELECT && x.bytes == 1 && TT.t[x.a[1]].op == TT.OP_C && TT.t[x.a[2]].op == TT.OP_C && ((TT.t[x.a[1]].k ^ TT.t[x.a[2]].k) & 1)) r = (TT.t[x.a[1]].k & 1) ? x.a[0] : canon(TT.mk(TT.OP_NOT, {x.a[0]}, 0, 1)); // select(c,true,false) == c
@@ -528,6 +540,13 @@ bool evalBits(int t, int point, std::unordered_map<int, uint64_t> &memo, uint64_
     else if (o == "fadd" || o == "fmul") { if (by == 4) { volatile float acc = (float)fa(0); for (size_t i = 1; i < v.size(); i++) { volatile float y = (float)fa((int)i); acc = o == "fadd" ? acc + y : acc * y; } r = fpToBits(acc, 4); } else { volatile double acc = fa(0); for (size_t i = 1; i < v.size(); i++) { volatile double y = fa((int)i); acc = o == "fadd" ? acc + y : acc * y; } r = fpToBits(acc, 8); } (void)s0; }
     else if (o == "fmin" || o == "fmax") { double acc = fa(0); for (size_t i = 1; i < v.size(); i++) acc = o == "fmin" ? fmin(acc, fa((int)i)) : fmax(acc, fa((int)i)); r = fpToBits(acc, by); }
     else return false;
+  }
+  else if (op.compare(0, 5, "libm.") == 0 && v.size() == 1 && (libmBase(op) == "round" || libmBase(op) == "roundeven" || libmBase(op) == "floor" || libmBase(op) == "ceil" || libmBase(op) == "trunc" || libmBase(op) == "rint" || libmBase(op) == "nearbyint")) {
+    // the rounding family is exact: evaluate it (this is what separates round-half-away from round-half-even)
+    std::string g = libmBase(op); double a = fa(0), q;
+    if (g == "round") q = std::round(a); else if (g == "floor") q = std::floor(a); else if (g == "ceil") q = std::ceil(a); else if (g == "trunc") q = std::trunc(a);
+    else { q = std::nearbyint(a); } // roundeven / rint / nearbyint under the default rounding mode
+    r = by == 4 ? fpToBits((float)q, 4) : fpToBits(q, 8);
   }
   else if (op.compare(0, 5, "libm.") == 0) {
     std::string f = op.substr(5); long double res;
